@@ -98,11 +98,14 @@ CLAIMS = {
              "messages up to 4095 bytes two single-bit syndromes differ); any odd number of flipped bits has one (the generator "
              "has the factor x+1: register parity is invariant). Hence a valid frame of any length hit between its flags by "
              "ANY error of one, two or three bits or by ANY single burst of <= 16 bits no longer carries a correct frame check "
-             "sequence and is refused by every parser (a damaged flag is refused by (2)). Not a theorem: parse-after-build for "
-             "all frames (decided by enumeration: the model is compared with the implementation on every generated frame, on "
-             "every single-bit flip and truncation of every frame <= 80 bytes and on sampled 2-/3-bit flips and bursts).",
-        note="Layout, acceptance soundness, resize refusal and the whole corruption clause are proved; the round trip "
-             "(parse after build) is checked by enumeration against implementation and model. Model follows fix "
+             "sequence and is refused by every parser (a damaged flag is refused by (2)); (5) round trip: parsing the standard "
+             "bytes of ANY frame in the domain with the parser of its kind returns its addresses, sequence numbers, poll/final "
+             "and segmentation bits and payload (the five parsers; addresses in the direction the parser assumes). The model "
+             "is compared with the implementation on every generated frame (incl. frames crafted so that each HCS/FCS byte is "
+             "7E/00/FF), on every single-bit flip and truncation of every frame <= 80 bytes and on sampled 2-/3-bit flips and "
+             "bursts.",
+        note="All clauses of the property are theorems about the model (layout, round trip, acceptance soundness, resize "
+             "refusal, corruption); the tie to the code is the correspondence and fault enumeration. Model follows fix "
              "commits 13a5e7c (check sequences over received bytes) and f440141 (segmentation bit kept). Known finding F09b: "
              "P/F attribute of SNRM/UA/DISC/RR is not on the wire.",
         technique="Coq proof (layout, acceptance soundness, CRC linearity, burst / 2-bit / odd-weight detection) + correspondence + exhaustive single-fault enumeration",
